@@ -213,6 +213,17 @@ fn transform(u: &mut Choices, f: &File, doc: &V) -> Option<Xform> {
                 let lvl = levels_for(u, &s, false);
                 let resolves = crate::model::eval_query_root(doc, &prefix).map(|m| m.iter().any(|x| matches!(x, crate::model::M::R(_)))).unwrap_or(false);
                 clause_at(&mut g, &s).q = var_q(&fresh, rest);
+                // half of the longer prefixes are bound in two steps at the same level:
+                // `let zva = head.first`, `let zv = %zva.second` (a variable defined from a variable)
+                let cuts: Vec<usize> = (0..cut).filter(|c| !matches!(prefix.parts[*c], Part::Filter(_) | Part::AllIdx)).collect();
+                if !cuts.is_empty() && u.chance(1, 2) {
+                    let c1 = cuts[u.below(cuts.len())];
+                    let first = Query { head: prefix.head.clone(), parts: prefix.parts[..c1].to_vec() };
+                    let second = var_q("zva", prefix.parts[c1..].to_vec());
+                    add_let(&mut g, &s, lvl, Let { name: "zva".into(), value: Expr::Query { some: false, q: first } });
+                    add_let(&mut g, &s, lvl, Let { name: fresh, value: Expr::Query { some: false, q: second } });
+                    return Some(Xform { kind: "lhs-prefix-chained", file: g, note: format!("query prefix {} -> two chained lets at {:?}", query_text(&prefix), lvl), resolves: resolves || s.in_block, inline: None });
+                }
                 add_let(&mut g, &s, lvl, Let { name: fresh, value: Expr::Query { some: false, q: prefix.clone() } });
                 return Some(Xform { kind: "lhs-prefix", file: g, note: format!("query prefix {} -> let at {:?}", query_text(&prefix), lvl), resolves: resolves || s.in_block, inline: None });
             }
